@@ -515,22 +515,26 @@ class VM:
         elif op == OpCode.LT:
             b = self.stack.pop()
             a = self.stack.pop()
-            self.stack.append(self._compare(a, b) < 0)
+            order = self._compare(a, b)
+            self.stack.append(order is not None and order < 0)
 
         elif op == OpCode.LE:
             b = self.stack.pop()
             a = self.stack.pop()
-            self.stack.append(self._compare(a, b) <= 0)
+            order = self._compare(a, b)
+            self.stack.append(order is not None and order <= 0)
 
         elif op == OpCode.GT:
             b = self.stack.pop()
             a = self.stack.pop()
-            self.stack.append(self._compare(a, b) > 0)
+            order = self._compare(a, b)
+            self.stack.append(order is not None and order > 0)
 
         elif op == OpCode.GE:
             b = self.stack.pop()
             a = self.stack.pop()
-            self.stack.append(self._compare(a, b) >= 0)
+            order = self._compare(a, b)
+            self.stack.append(order is not None and order >= 0)
 
         elif op == OpCode.EQ:
             b = self.stack.pop()
@@ -901,8 +905,8 @@ class VM:
         n = int(n)
         return n & 0xFFFFFFFF
 
-    def _compare(self, a: JSValue, b: JSValue) -> int:
-        """Compare two values. Returns -1, 0, or 1."""
+    def _compare(self, a: JSValue, b: JSValue) -> Optional[int]:
+        """Compare two values. Returns -1, 0, or 1, or None if either is NaN."""
         # Both strings: compare as strings
         if isinstance(a, str) and isinstance(b, str):
             if a < b:
@@ -914,9 +918,9 @@ class VM:
         # Convert to numbers for numeric comparison
         a_num = to_number(a)
         b_num = to_number(b)
-        # Handle NaN - any comparison with NaN returns false, we return 1
+        # Handle NaN - unordered: every relational comparison is false
         if math.isnan(a_num) or math.isnan(b_num):
-            return 1  # NaN comparisons are always false
+            return None
         if a_num < b_num:
             return -1
         if a_num > b_num:
